@@ -4,6 +4,7 @@
 import BorshModel.SchemaOf
 import BorshModel.Lemmas.Describes
 import BorshModel.Lemmas.SchemaBound
+import BorshModel.Lemmas.SchemaCoherentMain
 import BorshModel.Theorems.C01
 namespace Borsh
 
@@ -124,6 +125,39 @@ example :
     let t := Ty.map .hashMap (.str .string)
       (.seq .vec (Ty.option (Ty.tuple [.int .u8, .array 2 (.int .u16)])))
     (guardFree t && shapeOk t && WfTy t && (match schemaOf t with | .ok _ => true | _ => false)) = true := by
+  decide +kernel
+
+/-- **`for_type` binds every declaration as intended for every name-coherent type** — derived structs
+and enums (the derive's "declaration already present" shortcut included), `Ipv4Addr`-style built-ins,
+ranges, any nesting and any reuse of the same user type.  `Coherent` excludes exactly what the
+crate documents as unsupported: two *different* user types under one name. -/
+theorem C08_coherent_bound (t : Ty) (hc : coherentB t = true) (c : Container)
+    (h : schemaOf t = .ok c) : Bnd c t ∧ c.decl = declOf t :=
+  schemaOf_bnd t c (coherentB_sound t hc) h
+
+/-- **C08, end to end, for the whole universe**: for every name-coherent type that has a schema, a
+reader that knows nothing but the generated container parses the encoding of every value of the type
+exactly to its end. -/
+theorem C08_describes (t : Ty) (hc : coherentB t = true) (hs : shapeOk t = true)
+    (hw : WfTy t = true) (c : Container) (h : schemaOf t = .ok c) (v : Val) (bs : Bytes)
+    (hv : HasTy t v = true) (he : toVec t v = .ok bs) : c.describes bs := by
+  obtain ⟨hb, hd⟩ := C08_coherent_bound t hc c h
+  exact C08_describes_of_bound c t hs hw hb hd v bs hv he
+
+/-- the type of finding F8 is not name-coherent (two different `X`), which is why the theorem does
+not apply to it; the pair of the *same* struct twice, a derived enum with a skipped field and an
+explicit discriminant, and `Vec<(Ipv4Addr, Range<u8>)>` are -/
+example :
+    let xa := Ty.prod (.struct [88] false) [(none, false, .int .u8)]
+    let xb := Ty.prod (.struct [88] false) [(none, false, .int .u16)]
+    let sa := Ty.prod (.struct [83] false) [(some [102], false, xa)]
+    let sb := Ty.prod (.struct [83] false) [(some [102], false, xb)]
+    let e := Ty.sum (.derived [69] false)
+      [([65], 0, []), ([66], 7, [(some [97], false, sa), (some [98], true, .int .u64), (some [99], false, xa)])]
+    let r := Ty.seq .vec (Ty.tuple [.raw .ipv4, .prod .range [(none, false, .int .u8), (none, false, .int .u8)]])
+    (coherentB (Ty.tuple [sa, sb]) == false && coherentB (Ty.tuple [sa, sa]) &&
+     coherentB (Ty.tuple [e, .seq .vec sa, e]) && shapeOk e && WfTy e && coherentB r &&
+     (match schemaOf (Ty.tuple [e, .seq .vec sa, e]) with | .ok _ => true | _ => false)) = true := by
   decide +kernel
 
 end Borsh
